@@ -48,3 +48,35 @@ Definition guard (c : case) : bool :=
               (match eff (sig_of (c_sigs c)) a, eff (sig_of (c_sigs c)) b with
                | Some x, Some y => entry_eqb x y
                | _, _ => false end)) order) order.
+
+(** * Adjusted judgements: the specification with one known finding's
+    expectation substituted (used for attribution only) *)
+(** F-C04: calls are compared literally (tasks by identity) *)
+Definition adj_literal (c : case) : bool :=
+  obs_equiv (execute (sig_of (c_sigs c)) (fun t => t) (c_reqs c) (c_default c) (c_dedupe c)) (c_obs c).
+
+Fixpoint run_once_by (eqb : entry -> entry -> bool) (executed : list entry) (l : list entry) : list entry :=
+  match l with
+  | [] => []
+  | e :: l' => if existsb (eqb e) executed then run_once_by eqb executed l'
+               else e :: run_once_by eqb (e :: executed) l'
+  end.
+
+(** F-C04c: effective arguments as specified, but tasks made by one factory
+    count as one task *)
+Definition adj_classes (c : case) : bool :=
+  let sig := sig_of (c_sigs c) in
+  let eqk := eqk_of (c_eqk c) in
+  match all_some (map (eff sig) (dfs (requested (c_reqs c) (c_default c)))) with
+  | None => true
+  | Some order =>
+      match c_obs c with
+      | Err _ => false
+      | Ok (log, results) =>
+          list_eqb entry_eqb_s
+                   (if c_dedupe c
+                    then run_once_by (fun a b => Nat.eqb (eqk (fst a)) (eqk (fst b)) && kw_eqb (snd a) (snd b)) [] order
+                    else order) log &&
+          results_ok log results
+      end
+  end.
